@@ -74,7 +74,18 @@ def objects():
         las.set_data_from_df(df)
         return las
 
+    def rows(n):
+        def make():
+            las = lasio.LASFile()
+            las.append_curve("DEPT", np.arange(n) * 0.5 + 1000.0, unit="m")
+            las.append_curve("A", np.arange(n) * 0.25 - 7.0, unit="u")
+            return las
+        return make
+
     return [
+        # row counts at and around round numbers (block-wise export must not lose or repeat records)
+        ("rows-999", rows(999)), ("rows-1000", rows(1000)), ("rows-1001", rows(1001)), ("rows-2000", rows(2000)), ("rows-256", rows(256)),
+        ("rows-4096", rows(4096)),
         ("setdata-mixed", setdata_mixed),
         ("from-df-mixed", from_df),
         ("default", lambda: lasio.LASFile()),
@@ -195,6 +206,15 @@ def V(clause, pt, expected, observed, sig=None):
 
 
 def check_json(pt):
+    # another object is exported first: what one export puts into the document must not show up in the next one
+    try:
+        other = lasio.LASFile()
+        other.append_curve("DEPT", np.array([1.0, 2.0]))
+        other.append_curve("ZZ_OTHER_CURVE", np.array([5.0, 6.0]))
+        other.sections["ZZ_Other_Section"] = lasio.SectionItems([lasio.HeaderItem("ZZ", "", 1, "only in the other object")])
+        other.to_json()
+    except Exception:
+        pass
     las = OBJ[pt[1]]()
 
     def strict(c):
@@ -242,6 +262,16 @@ def check_json(pt):
         if got != want:
             vio.append(V("json-data", pt, {c.mnemonic: want}, got))
             break
+    # ... and nothing else: the document holds this object's sections and curves only
+    if isinstance(doc.get("data"), dict) and set(doc["data"]) != {c.mnemonic for c in las.curves}:
+        vio.append(V("json-foreign-curves", pt, sorted(c.mnemonic for c in las.curves), sorted(doc["data"])))
+    if isinstance(doc.get("metadata"), dict) and set(doc["metadata"]) != set(las.sections):
+        vio.append(V("json-foreign-sections", pt, sorted(las.sections), sorted(doc["metadata"])))
+    else:
+        for name, sec in las.sections.items():
+            if not isinstance(sec, str) and isinstance(doc["metadata"].get(name), dict) and set(doc["metadata"][name]) != {i.mnemonic for i in sec}:
+                vio.append(V("json-foreign-items", pt, sorted(i.mnemonic for i in sec), sorted(doc["metadata"][name])))
+                break
     return vio
 
 
